@@ -533,3 +533,46 @@ func TestF29_OverrideKeyConflatesNames(t *testing.T) {
 		t.Errorf("ParamsFor reports %d parameters for three declarations with three different names in one location", got)
 	}
 }
+
+// F30 (C04): in Expand mode the loop of stripPointersAndOAIGen repeated the full-flattening naming of inline schemas
+// (it tested Minimal only, step 5 of Flatten tests Minimal and Expand). A cyclic bundle with one $ref-free colliding
+// import referenced twice made Flatten fail on a JSON pointer into a schema that the naming had moved.
+func TestF30_ExpandDoesNotNameInlineSchemas(t *testing.T) {
+	const root = `{
+ "swagger": "2.0", "info": {"title": "t", "version": "1"},
+ "paths": {"/a": {"get": {"operationId": "getA", "responses": {
+   "200": {"description": "ok", "schema": {"$ref": "sub/aux.json#/definitions/holder"}}
+ }}}},
+ "definitions": {"thing": {"type": "object", "properties": {"r": {"type": "string"}}}}
+}`
+	const aux = `{"definitions": {
+ "holder": {"type": "object", "properties": {
+    "self": {"$ref": "#/definitions/holder"},
+    "a": {"type": "object", "properties": {"x": {"$ref": "#/definitions/thing"}}},
+    "b": {"type": "object", "properties": {"y": {"$ref": "#/definitions/thing"}}}
+ }},
+ "thing": {"type": "string"}
+}}`
+	for _, o := range []analysis.FlattenOpts{{Minimal: true}, {}, {Expand: true}} {
+		dir := t.TempDir()
+		if err := os.MkdirAll(filepath.Join(dir, "sub"), 0o755); err != nil {
+			t.Fatal(err)
+		}
+		rootPath := filepath.Join(dir, "root.json")
+		_ = os.WriteFile(rootPath, []byte(root), 0o600)
+		_ = os.WriteFile(filepath.Join(dir, "sub", "aux.json"), []byte(aux), 0o600)
+		sw := load(t, root)
+		o.Spec, o.BasePath = analysis.New(sw), rootPath
+		if err := analysis.Flatten(o); err != nil {
+			t.Errorf("Minimal=%t Expand=%t: Flatten fails on a well-formed bundle: %v", o.Minimal, o.Expand, err)
+			continue
+		}
+		if o.Expand {
+			for name, d := range sw.Definitions {
+				if _, generated := d.Extensions["x-go-gen-location"]; generated {
+					t.Errorf("Expand: the inline schema %q was moved to a new definition, as in full flattening", name)
+				}
+			}
+		}
+	}
+}
